@@ -491,6 +491,7 @@ _amend("C07", "text", "R07.1-R07.13", "R07.1-R07.15")
 _amend("C01", "text", "(R01.1-R01.56;", "(R01.1-R01.57; R01.57: an operand negated by De Morgan's rewrite is grouped for every level below the unary level (exhaustive evaluation);")
 _amend("C01", "text", "Decides fifty-six structural", "Decides fifty-seven structural")
 _amend("C03", "text", "Decides twenty-six local clauses (R03.1-R03.26;", "Decides twenty-seven local clauses (R03.1-R03.27; R03.27: only attributes with a missing-value default are dropped for having it (reference table);")
+_amend("C03", "text", "the colgroup end tag stays in front of colgroup and col,", "the colgroup end tag stays in front of colgroup, col and template,")
 
 if __name__ == "__main__":
     main()
